@@ -248,7 +248,7 @@ pub fn run(ts: &Ts, tk: &Tokens, o: &Opts) -> Summary {
             }
             let ev = &ts.events[*ei as usize];
             if ev.raw["op"] == "inspect" {
-                observers::inspect_event(&base, ev, &path, &mut sum, &mut wfile, &mut next_trace_id);
+                observers::inspect_event(&base, ev, &path, o, &mut sum, &mut wfile, &mut next_trace_id, tk);
                 continue;
             }
             // a private copy of the object: the real clone(), cross-checked; path replay otherwise
